@@ -48,6 +48,8 @@ mod unit;
 mod unit_registry;
 pub mod value;
 mod vm;
+#[cfg(feature = "verif")]
+pub mod verif;
 
 use std::borrow::Cow;
 
